@@ -8,7 +8,7 @@ from sa.analyses.buffers import through_local
 from sa.analyses.locks import LockHeld, held_names
 from sa.db import AnalysisError, ClassInfo, FunctionInfo, dotted, mangle, norm_stmt, own_nodes
 from sa.exc import CANCELLED
-from sa.flow import Interp, TestAtom, WithEnter, call_of
+from sa.flow import FnExit, Interp, TestAtom, WithEnter, call_of
 
 CLAIM = {
     "text": "Decides plaintext confinement, flush ordering and lock separation of the TLS transports: in AsyncTLSStreamTransport the only value that ever reaches the wrapped transport's send_all / send_all_from_iterable is the whole content of the outgoing BIO (`self._write_bio.read()` with no size bound, in the same expression), the plaintext parameters and the plaintext backlog flow only into the SSL object's write, bytes read from the wrapped transport flow only into the incoming BIO, and results handed to the caller come from the SSL object; in the retry loop pending ciphertext is flushed (under nothing but `_write_bio.pending`) before the transport is read on WANT_READ, unconditionally on WANT_WRITE, and before a successful result is returned; the send and receive directions are guarded by two distinct fair locks that are never held together (a parked reader cannot block writers); on OSError / SSLError both BIOs are marked EOF before the error propagates; the blocking SSLStreamTransport never touches the raw socket after wrapping it.",
@@ -208,6 +208,103 @@ def check_flush(eng, run):
     run.floor("C08.eofbio arms", n_arms, 2)
 
 
+class Drain(RuleAnalysis):
+    """fact: 'idle' | 'queued' (plaintext appended to the backlog, not yet handed to the SSL object) | 'drained'."""
+    tokens = ("Exception", CANCELLED)
+
+    def __init__(self, engine, backlog_attr, drains, start="idle"):
+        super().__init__(engine)
+        self.backlog = backlog_attr
+        self.drains = drains          # names of methods known to drain the backlog on every normal exit
+        self.start = start
+        self.viol = []
+        self.queues = 0
+        self.drain_sites = 0
+
+    def initial(self, fn):
+        return [self.start]
+
+    def may_raise(self, node, fact):
+        if isinstance(node, (ast.Await, ast.Call, ast.Raise)):
+            return ["Exception"] if not isinstance(node, ast.Await) else list(self.tokens)
+        return []
+
+    def _is_drain(self, c):
+        name = _cname(c)
+        if name == "_retry_ssl_method":
+            # the write-all helper applied to the backlog itself
+            args = [dotted(a) or "" for a in c.args]
+            return bool(args) and any(a.endswith("." + self.backlog) for a in args[1:]) and any(
+                a.split(".")[-1].lstrip("_").endswith(w.lstrip("_")) for a in args[:1] for w in self.drains.get("writers", ()))
+        return name in self.drains.get("methods", ()) and isinstance(c.func, ast.Attribute) and dotted(c.func.value) == self.fn.self_name
+
+    def transfer(self, node, fact):
+        c = call_of(node)
+        if isinstance(node, ast.Call) and isinstance(node.func, ast.Attribute) and (dotted(node.func.value) or "").endswith("." + self.backlog) \
+                and node.func.attr in ("append", "extend", "appendleft", "extendleft", "insert"):
+            self.queues += 1
+            return ["queued"]
+        if isinstance(node, ast.Await) and c is not None and self._is_drain(c):
+            self.drain_sites += 1
+            return ["drained"]
+        if isinstance(node, (ast.Return, FnExit)) and fact == "queued":
+            self.viol.append(node)
+        return [fact]
+
+
+def check_drain(eng, run):
+    """Every send entry point that queues plaintext hands the *whole* backlog to the SSL object before it returns normally."""
+    tls = eng.db.cls(TLS)
+    # the write-all helper: a loop on the backlog parameter that can only end when it is empty
+    writers = []
+    for fn in tls.methods.values():
+        ps = [a.arg for a in fn.params()]
+        for w in [n for n in own_nodes(fn.node) if isinstance(n, ast.While)]:
+            if isinstance(w.test, ast.Name) and w.test.id in ps and any(isinstance(n, ast.Call) and _cname(n) == "write" for n in ast.walk(w)):
+                esc = [n for n in ast.walk(w) if isinstance(n, (ast.Break, ast.Return))]
+                for n in esc:
+                    run.finding("C08.drain", fn, _stmt_at(fn, n.lineno), "the write-all loop leaves before the plaintext backlog is empty: send_all() returns with bytes never encrypted nor sent")
+                # every iteration shrinks the backlog: either the head is replaced by its unsent suffix or it is deleted
+                b = w.test.id
+                dels = [n for n in ast.walk(w) if isinstance(n, ast.Delete) and any(isinstance(t, ast.Subscript) and dotted(t.value) == b for t in n.targets)] + \
+                       [n for n in ast.walk(w) if isinstance(n, ast.Call) and _cname(n) in ("popleft", "pop") and isinstance(n.func, ast.Attribute) and dotted(n.func.value) == b]
+                run.ob("C08.drain", f"{fn.short}:write-all-loop-ends-only-on-empty-backlog", not esc and bool(dels), exits=len(esc), pops=len(dels))
+                if not dels:
+                    run.finding("C08.drain", fn, w, "the write-all loop never removes a fully written chunk from the backlog")
+                writers.append(fn.name)
+    if not writers:
+        raise AnalysisError("anchor vanished: write-all loop over the plaintext backlog in AsyncTLSStreamTransport")
+    # which private helpers drain on every normal exit (summary), then the public senders
+    backlog = "_data_deque"
+    drains = {"writers": tuple(writers), "methods": ()}
+    helpers = []
+    for fn in tls.methods.values():
+        if fn.name in ("send_all", "send_all_from_iterable", "_retry_ssl_method") or fn.name in writers or not fn.is_async:
+            continue
+        an = Drain(eng, backlog, drains, start="queued")
+        Interp(an, fn).run()
+        if an.drain_sites:
+            helpers.append(fn)
+            for node in an.viol:
+                run.finding("C08.drain", fn, _stmt_at(fn, getattr(node, "lineno", fn.lineno)) if not isinstance(node, FnExit) else fn.node,
+                            "returns normally without handing the plaintext backlog to the SSL object: the caller's send_all() completes although its bytes were never written")
+            run.ob("C08.drain", f"{fn.short}:drains-on-every-normal-exit", not an.viol, drain_sites=an.drain_sites)
+    drains = {"writers": tuple(writers), "methods": tuple(h.name for h in helpers)}
+    n = 0
+    for name in ("send_all", "send_all_from_iterable"):
+        fn = tls.methods[name]
+        an = Drain(eng, backlog, drains)
+        Interp(an, fn).run()
+        if not an.queues:
+            raise AnalysisError(f"anchor vanished: {name} no longer queues into {backlog}")
+        n += 1
+        for node in an.viol:
+            run.finding("C08.drain", fn, _stmt_at(fn, getattr(node, "lineno", fn.lineno)) if not isinstance(node, FnExit) else fn.node,
+                        "returns normally after queueing plaintext without draining the backlog into the SSL object")
+        run.ob("C08.drain", f"{fn.short}:queued-data-drained-before-return", not an.viol, queue_sites=an.queues, drain_sites=an.drain_sites)
+    run.floor("C08.drain senders", n, 2)
+
+
 def check_locks(eng, run):
     tls = eng.db.cls(TLS)
     fn = tls.methods["_retry_ssl_method"]
@@ -250,6 +347,7 @@ def run(eng, run):
     run.not_decided += NOT_DECIDED
     check_conf(eng, run)
     check_flush(eng, run)
+    check_drain(eng, run)
     check_locks(eng, run)
 
 
@@ -299,4 +397,20 @@ BENIGN = [
     Variant("extract-nothing-rename", _R, lambda fn: rename_local(fn, "result", "value"), why="local renamed"),
     Variant("send-all-extra-local", _T + ".send_all", lambda fn: insert_before(fn, stmt_has("self._data_deque.append"), "n = len(data)"), why="unrelated local"),
     Variant("recv-into-rename", _T + ".recv_into", lambda fn: rename_local(fn, "nbytes", "size"), why="local renamed"),
+]
+
+_FL = _T + ".__flush_data_to_send"
+_WA = _T + ".__write_all_to_ssl_object"
+MUTANTS += [
+    Variant("flush-skipped-when-send-lock-busy", _FL, lambda fn: insert_before(fn, stmt_has("try:"), "if self.__transport_send_lock.locked():\n    return"), "C08.drain",
+            why="the second concurrent send_all() returns with its bytes still un-encrypted in the backlog (seed C08-5)"),
+    Variant("send-all-only-queues", _T + ".send_all", lambda fn: replace_stmt(fn, stmt_has("return await self.__flush_data_to_send()"), "return None"), "C08.drain"),
+    Variant("write-all-stops-after-partial-write", _WA, lambda fn: replace_stmt(fn, stmt_has("write_backlog[0] = data[sent:]"), "write_backlog[0] = data[sent:]\nbreak"), "C08.drain",
+            why="a partial SSL write leaves the rest of the backlog unsent"),
+    Variant("write-all-one-chunk-per-call", _WA, lambda fn: insert_after(fn, stmt_has("del write_backlog[0]"), "return"), "C08.drain"),
+]
+BENIGN += [
+    Variant("flush-awaited-then-return", _T + ".send_all", lambda fn: replace_stmt(fn, stmt_has("return await self.__flush_data_to_send()"), "await self.__flush_data_to_send()\nreturn None"),
+            why="same drain, explicit return"),
+    Variant("write-all-popleft", _WA, lambda fn: replace_stmt(fn, stmt_has("del write_backlog[0]"), "write_backlog.popleft()"), why="deque.popleft() instead of del [0]"),
 ]
